@@ -57,8 +57,8 @@ func (f *vFile) writeAt(p []byte, off int) (int, error) {
 		err = errVFault
 		f.failed++
 	}
-	for len(f.data) < off+n {
-		f.data = append(f.data, 0)
+	if len(f.data) < off+n {
+		f.data = append(f.data, make([]byte, off+n-len(f.data))...)
 	}
 	copy(f.data[off:], p[:n])
 	f.log = append(f.log, vWriteRec{off: off, data: append([]byte{}, p[:n]...), trunc: -1})
@@ -82,8 +82,8 @@ func (f *vFile) Truncate(size int64) error {
 	if size < 0 {
 		return errors.New("vFile: negative size")
 	}
-	for int64(len(f.data)) < size {
-		f.data = append(f.data, 0)
+	if int64(len(f.data)) < size {
+		f.data = append(f.data, make([]byte, int(size)-len(f.data))...)
 	}
 	f.data = f.data[:size]
 	f.log = append(f.log, vWriteRec{trunc: int(size)})
